@@ -61,6 +61,19 @@ class Native:
         return '<%s>' % self.label
 
 
+class Gen:
+    """the result of calling a generator function.  The body is run EAGERLY when the function is called and the yielded values
+    are kept here; iteration consumes them (a second iteration finds nothing, as in Python).  Sound as long as the consumer
+    does not observe side effects of the body between two yields; a generator that never ends exhausts the step budget."""
+    __slots__ = ('items',)
+
+    def __init__(self, items):
+        self.items = items
+
+    def __repr__(self):
+        return '<generator of %d>' % len(self.items)
+
+
 class PyExc(Exception):
     """an exception raised by the interpreted code"""
 
@@ -110,6 +123,8 @@ class Interp:
         self.where = where
         self._defaults = {}      # id(function node) -> default values, evaluated once as Python does (shared mutable defaults!)
         self._cattrs = {}        # (class qual, name) -> class-level attribute value, evaluated once (shared class state)
+        self._isgen = {}         # id(function node) -> does its own body (nested defs excluded) contain yield?
+        self._ystack = []        # collectors of the generator bodies being run (innermost last)
 
     # ---- failure
     def fail(self, node, what):
@@ -120,6 +135,47 @@ class Interp:
         self.budget -= 1
         if self.budget < 0:
             self.fail(node, 'step budget exhausted (non-terminating loop?)')
+
+    # ---- generators (run eagerly, see Gen)
+    def is_generator(self, fn):
+        r = self._isgen.get(id(fn))
+        if r is None:
+            r = False
+            todo = list(fn.body) if isinstance(fn, ast.FunctionDef) else []
+            while todo and not r:
+                n = todo.pop()
+                if isinstance(n, (ast.Yield, ast.YieldFrom)):
+                    r = True
+                elif not isinstance(n, (ast.FunctionDef, ast.AsyncFunctionDef, ast.Lambda, ast.ClassDef)):
+                    todo.extend(ast.iter_child_nodes(n))
+            self._isgen[id(fn)] = r
+        return r
+
+    def run_body(self, fn, env, mod, cls):
+        """run a function body; a generator function returns Gen(yielded values)"""
+        if self.is_generator(fn):
+            out = []
+            self._ystack.append(out)
+            try:
+                self.block(fn.body, env, mod, cls)
+            except _Ret:
+                pass
+            finally:
+                self._ystack.pop()
+            return Gen(out)
+        try:
+            self.block(fn.body, env, mod, cls)
+        except _Ret as r:
+            return r.v
+        return None
+
+    def dunder(self, o, name):
+        """special method `name` of an interpreted object's class, or None"""
+        if isinstance(o, Obj) and o.cls is not None and hasattr(o.cls, 'methods'):
+            k, fn = self.idx.find_method(o.cls, name)
+            if fn is not None:
+                return FuncRef(k.mod, fn, k)
+        return None
 
     # ---- calling
     def call_function(self, ref, args, kwargs, node=None, selfobj=None):
@@ -151,11 +207,7 @@ class Interp:
                 env.vars[p] = self._defaults[id(fn)][j]
         if len(vals) > len(params):
             self.fail(node or fn, 'too many arguments for ' + fn.name)
-        try:
-            self.block(fn.body, env, ref.mod, ref.owner)
-        except _Ret as r:
-            return r.v
-        return None
+        return self.run_body(fn, env, ref.mod, ref.owner)
 
     def call_value(self, f, args, kwargs, node):
         if isinstance(f, FuncRef):
@@ -186,11 +238,7 @@ class Interp:
                     env.vars[p] = self.ev(defaults[j], f.env, f.mod, f.cls)
             if isinstance(n, ast.Lambda):
                 return self.ev(n.body, env, f.mod, f.cls)
-            try:
-                self.block(n.body, env, f.mod, f.cls)
-            except _Ret as r:
-                return r.v
-            return None
+            return self.run_body(n, env, f.mod, f.cls)
         if isinstance(f, ClassRef):
             return self.instantiate(f.cls, args, kwargs, node)
         if isinstance(f, NTType):
@@ -350,6 +398,10 @@ class Interp:
             if isinstance(tgt.slice, ast.Slice):
                 self.fail(tgt, 'slice store')
             k = self.ev(tgt.slice, env, mod, cls)
+            si = self.dunder(base, '__setitem__')
+            if si is not None:
+                self.call_function(si, [k, v], {}, tgt, selfobj=base)
+                return
             try:
                 if isinstance(base, list):
                     base[k] = v
@@ -375,7 +427,7 @@ class Interp:
 
     # ---- values
     def truth(self, v):
-        if isinstance(v, (Obj, Native, ClassRef, FuncRef, Bound, Closure)):
+        if isinstance(v, (Obj, Native, ClassRef, FuncRef, Bound, Closure, Gen)):
             return True
         return bool(v)
 
@@ -384,6 +436,15 @@ class Interp:
             return list(v)
         if isinstance(v, dict):
             return [kv[0] for kv in v.values()]
+        if isinstance(v, Gen):
+            items, v.items = v.items, []
+            return items
+        it = self.dunder(v, '__iter__')
+        if it is not None:
+            r = self.call_function(it, [], {}, node, selfobj=v)
+            if isinstance(r, (Gen, list, tuple)):
+                return self.iterate(r, node)
+            self.fail(node, '__iter__ returning %r' % (r,))
         self.fail(node, 'iteration over %r' % (v,))
 
     def binop(self, op, a, b, node):
@@ -566,6 +627,9 @@ class Interp:
                         self.fail(e, 'slice of %r' % (base,))
                     return base[lo:hi:st]
                 k = self.ev(e.slice, env, mod, cls)
+                gi = self.dunder(base, '__getitem__')
+                if gi is not None:
+                    return self.call_function(gi, [k], {}, e, selfobj=base)
                 if isinstance(base, dict):
                     kk = self.key(k)
                     if kk not in base:
@@ -584,6 +648,14 @@ class Interp:
             return Closure(e, env, mod, cls)
         if isinstance(e, ast.Call):
             return self.call(e, env, mod, cls)
+        if isinstance(e, (ast.Yield, ast.YieldFrom)):
+            if not self._ystack:
+                self.fail(e, 'yield outside a generator body')
+            if isinstance(e, ast.Yield):
+                self._ystack[-1].append(self.ev(e.value, env, mod, cls) if e.value is not None else None)
+            else:
+                self._ystack[-1].extend(self.iterate(self.ev(e.value, env, mod, cls), e))
+            return None
         if isinstance(e, ast.JoinedStr):
             s = ''
             for p in e.values:
@@ -802,7 +874,12 @@ class Interp:
             elif name == 'iter' and len(args) == 1:
                 return self.iterate(args[0], node)
             elif name == 'next' and 1 <= len(args) <= 2:
-                seq = self.iterate(args[0], node)
+                if isinstance(args[0], Gen):
+                    if args[0].items:
+                        return args[0].items.pop(0)
+                    seq = []
+                else:
+                    seq = self.iterate(args[0], node)
                 if seq:
                     return seq[0]
                 if len(args) == 2:
